@@ -2324,7 +2324,8 @@ def w9_memcheck(X, build_thread):
         fr = []
         for m in re.finditer(r"==\d+==\s+(?:at|by) 0x[0-9A-F]+: (.*) \(([^()]+)\)\s*$", err, re.M):
             func, loc = m.group(1), m.group(2)
-            if not re.search(r"\.(cpp|h):\d+$", loc) or loc.startswith("parsedrv.cpp") or func.startswith(("std::", "__")):
+            if not re.search(r"\.(cpp|h):\d+$", loc) or loc.startswith("parsedrv.cpp") or \
+                    func.startswith(("std::", "__", "non-virtual thunk")):
                 continue
             func = re.sub(r"^\(anonymous namespace\)::", "", func)
             fr.append(re.sub(r"<.*?>", "", re.sub(r"\(.*", "", func)).strip())
